@@ -30,7 +30,8 @@
 EXTENDS Naturals, Sequences, FiniteSets, TLC, Json
 
 CONSTANTS MaxVersion, MaxSnaps, MaxIds, Modes, Procs, MaxSteps,
-          OpsOn     \* which calls the sequential machine makes (subset of write, snapshot, restore, getSnapshotId, getTimelineId)
+          OpsOn,    \* which calls the sequential machine makes (subset of write, snapshot, restore, getSnapshotId, getTimelineId, window)
+          Nested    \* the transactions (subset of Procs) that re-enter the reload lock while they hold it (see TxNested)
 
 NIL == 0      \* "no id" (ids are 1, 2, ...)
 
@@ -133,7 +134,14 @@ TxBegin(p) == /\ pc[p] = "idle" /\ ~writer /\ ~waiting
               /\ pc' = [pc EXCEPT ![p] = "in"]
               /\ sample' = [sample EXCEPT ![p] = <<gen, 0>>]
               /\ UNCHANGED <<gen, genCount, writer, waiting>>
-TxRead(p) == /\ pc[p] = "in"
+\* Db.Snapshot = View + SnapshotInTx, Migrate = Update + RootBucket + SnapshotInTx: SnapshotInTx and RootBucket take the reload
+\* lock shared *again* inside a transaction that already holds it.  Go's RWMutex holds new readers back once a writer waits,
+\* so the inner RLock of a transaction that started before the restore asked for the lock waits for the restore, which waits
+\* for that transaction: LockDeadlockFree fails as soon as Nested # {} (an observation outside the listed properties, DESIGN 0.5).
+TxNested(p) == /\ pc[p] = "in" /\ p \in Nested /\ ~writer /\ ~waiting
+               /\ pc' = [pc EXCEPT ![p] = "inner"]
+               /\ UNCHANGED <<gen, genCount, readers, writer, waiting, sample>>
+TxRead(p) == /\ pc[p] = (IF p \in Nested THEN "inner" ELSE "in")
              /\ sample' = [sample EXCEPT ![p] = <<sample[p][1], gen>>]
              /\ pc' = [pc EXCEPT ![p] = "read"]
              /\ UNCHANGED <<gen, genCount, readers, writer, waiting>>
@@ -153,12 +161,14 @@ ROpen == /\ pc[Restorer] = "closed" /\ gen' = genCount + 1 /\ genCount' = genCou
 RUnlock == /\ pc[Restorer] = "opened" /\ writer' = FALSE /\ pc' = [pc EXCEPT ![Restorer] = "idle"]
            /\ UNCHANGED <<gen, genCount, readers, waiting, sample>>
 
-CNext == \/ \E p \in Procs : TxBegin(p) \/ TxRead(p) \/ TxEnd(p)
+CNext == \/ \E p \in Procs : TxBegin(p) \/ TxNested(p) \/ TxRead(p) \/ TxEnd(p)
          \/ (genCount < 3 /\ RWant) \/ RLock \/ RClose \/ ROpen \/ RUnlock
 
 \* no transaction ever sees the closed file or two different files
 OneGeneration == \A p \in Procs : pc[p] \in {"read", "done"} => (sample[p][1] = sample[p][2] /\ sample[p][1] > 0)
 NoTxWhileSwapping == (gen = 0) => readers = {}
+\* progress of the protocol: whenever something is still to be done some step is possible
+LockDeadlockFree == (\E p \in Procs \cup {Restorer} : pc[p] \notin {"idle", "done"}) => ENABLED CNext
 
 -----------------------------------------------------------------------------
 (* the three uses of this module (TLC wants every declared variable constrained) *)
